@@ -97,6 +97,13 @@ func newWorldOn(wrap func(net.Listener) net.Listener) *world {
 		}
 		return &payloads.ActivateResponsePayload{UniqueIdentifier: id}, nil
 	}))
+	// the application answers Discover Versions itself; its handler is as fallible as any other
+	ex.Route(kmip.OperationDiscoverVersions, kmipserver.HandleFunc(func(ctx context.Context, req *payloads.DiscoverVersionsRequestPayload) (*payloads.DiscoverVersionsResponsePayload, error) {
+		if len(req.ProtocolVersion) == 3 {
+			panic("discover handler panic")
+		}
+		return &payloads.DiscoverVersionsResponsePayload{ProtocolVersion: []kmip.ProtocolVersion{kmip.V1_4}}, nil
+	}))
 	var ln net.Listener = w.l
 	if wrap != nil {
 		ln = wrap(w.l)
@@ -331,6 +338,13 @@ func undecodable(kind int, id string) []byte {
 		cred := it(kmip.TagCredential, 1, append(enum(kmip.TagCredentialType, 0x7F), it(kmip.TagCredentialValue, 1, nil)...))
 		hdr = it(kmip.TagRequestHeader, 1, append(append(pv, it(kmip.TagAuthentication, 1, cred)...), i32(kmip.TagBatchCount, 1)...))
 		item = it(kmip.TagBatchItem, 1, append(enum(kmip.TagOperation, 0x12), it(kmip.TagRequestPayload, 1, it(kmip.TagUniqueIdentifier, 7, []byte(id)))...))
+	case 4: // a message announcing more than the server's limit (1 MiB); its "body" consists of well-formed requests
+		out := []byte{0x42, 0x00, 0x78, 0x01}
+		out = binary.BigEndian.AppendUint32(out, uint32(1<<20+4096))
+		for k := 0; k < 12; k++ {
+			out = append(out, request(fmt.Sprintf("%s-inside-oversized-%d-ok", id, k))...)
+		}
+		return out
 	default: // a structure that is neither a request nor a response message
 		return it(kmip.TagTemplateAttribute, 1, it(kmip.TagUniqueIdentifier, 7, []byte(id)))
 	}
@@ -809,10 +823,10 @@ func directed(c *core.Ctx, r *core.Rand, i int) {
 func undecodableCase(c *core.Ctx, r *core.Rand, i int) {
 	w := newWorld()
 	defer func() { w.srv.Shutdown(); <-w.done }()
-	kind := i % 4
+	kind := i % 5
 	conn, _ := w.l.Dial()
 	defer conn.Close()
-	pre := i / 4 % 3
+	pre := i / 5 % 3
 	var expect []string
 	for k := 0; k < pre; k++ {
 		id := fmt.Sprintf("u%d-%d-ok", i, k)
@@ -858,7 +872,7 @@ func undecodableCase(c *core.Ctx, r *core.Rand, i int) {
 	if fmt.Sprint(got) != fmt.Sprint(expect) {
 		c.Violation(fmt.Sprintf("C08:undecodable-request-not-answered:kind%d", kind),
 			fmt.Sprintf("a correctly framed request that cannot be decoded (kind %d: %s) is answered with %v, expected %v", kind,
-				[]string{"wrong item type", "unknown object type", "unsupported credential type", "not a message"}[kind], got, expect), map[string]any{"request": fmt.Sprintf("%x", undecodable(kind, "bad"))})
+				[]string{"wrong item type", "unknown object type", "unsupported credential type", "not a message", "announces more than the size limit, the body being well-formed requests"}[kind], got, expect), map[string]any{"request": fmt.Sprintf("%x", undecodable(kind, "bad"))})
 	}
 }
 
@@ -866,6 +880,56 @@ func undecodableCase(c *core.Ctx, r *core.Rand, i int) {
 // of a valid request, random mutations), one input per connection. The worker process is the crash
 // monitor; a correctly framed input must be answered by exactly one response; the server must keep
 // serving afterwards.
+// discoverPanicCase: the handler the application routed for Discover Versions panics. The request is answered with a
+// failed item like any other handler panic, and the connection (and the process) go on serving.
+func discoverPanicCase(c *core.Ctx, r *core.Rand, i int) {
+	w := newWorld()
+	defer func() { w.srv.Shutdown(); <-w.done }()
+	conn, _ := w.l.Dial()
+	defer conn.Close()
+	st := ttlv.NewStream(conn, 0)
+	roundtrip := func(m *kmip.RequestMessage) (string, error) {
+		var resp kmip.ResponseMessage
+		done := make(chan error, 1)
+		go func() { done <- st.Roundtrip(m, &resp) }()
+		select {
+		case err := <-done:
+			if err != nil {
+				return "", err
+			}
+			if len(resp.BatchItem) != 1 {
+				return fmt.Sprintf("!items=%d", len(resp.BatchItem)), nil
+			}
+			if resp.BatchItem[0].ResultStatus == kmip.ResultStatusOperationFailed {
+				return "!failed", nil
+			}
+			return classify(&resp), nil
+		case <-time.After(15 * time.Second):
+			return "", errors.New("no answer within 15 s")
+		}
+	}
+	ok := func(id string) *kmip.RequestMessage {
+		var m kmip.RequestMessage
+		ttlv.UnmarshalTTLV(request(id), &m)
+		return &m
+	}
+	disc := &kmip.RequestMessage{Header: kmip.RequestHeader{ProtocolVersion: kmip.V1_4, BatchCount: 1},
+		BatchItem: []kmip.RequestBatchItem{{Operation: kmip.OperationDiscoverVersions, RequestPayload: &payloads.DiscoverVersionsRequestPayload{ProtocolVersion: []kmip.ProtocolVersion{kmip.V1_4, kmip.V1_3, kmip.V1_2}}}}}
+	seq := []struct {
+		m    *kmip.RequestMessage
+		want string
+	}{{ok(fmt.Sprintf("dp%d-a-ok", i)), fmt.Sprintf("dp%d-a-ok", i)}, {disc, "!failed"}, {ok(fmt.Sprintf("dp%d-b-ok", i)), fmt.Sprintf("dp%d-b-ok", i)}, {disc, "!failed"}}
+	for k, step := range seq {
+		got, err := roundtrip(step.m)
+		if err != nil || got != step.want {
+			c.Violation("C08:panicking-discover-handler", fmt.Sprintf("step %d of [request, Discover Versions whose routed handler panics, request, the same again]: got %q (%v), expected %q", k+1, got, err, step.want), nil)
+			return
+		}
+	}
+	c.Count("discover_handler_panics", 2)
+	c.Distinct(core.Hash64("discover-panic", fmt.Sprint(i)))
+}
+
 func hostileFrames(c *core.Ctx, r *core.Rand, i int) {
 	w := newWorld()
 	defer func() { w.srv.Shutdown(); <-w.done }()
@@ -959,7 +1023,7 @@ func Spec() *core.Spec {
 			"every request and response carries a unique id (Unique Batch Item ID) so each connection's received sequence is checked against its sent sequence (exactly once, in order, never more; complete when the client drained); " +
 			"the binary hostile corpus of C02 (length/type ladders over every item of valid requests, random mutations) fed one input per connection; a canary connection is pinged throughout; goroutine census at quiescence; Shutdown at the end; directed schedules through the verif hooks. The worker process is the crash monitor. a TLS listener with peers stalling in, garbling or abandoning the handshake while well-behaved TLS clients must be served and Shutdown must return; distinct = distinct per-connection action sequences",
 		Assumptions: []string{"a connection closed abruptly by the client may end short, never long or out of order", "goroutines gone = none with a library frame (other than the accept loop) within 10 s of the last connection ending"},
-		Required: []string{"histories", "tls_histories", "tls_good_clients", "tls_hostile_peers.kind0", "tls_hostile_peers.kind1", "tls_shutdowns_with_stalled_peers", "connections", "responses_received", "graceful_connections_fully_answered", "canary_pings", "census_checks", "undecodable_requests.kind0", "undecodable_requests.kind1",
+		Required: []string{"discover_handler_panics", "undecodable_requests.kind4", "histories", "tls_histories", "tls_good_clients", "tls_hostile_peers.kind0", "tls_hostile_peers.kind1", "tls_shutdowns_with_stalled_peers", "connections", "responses_received", "graceful_connections_fully_answered", "canary_pings", "census_checks", "undecodable_requests.kind0", "undecodable_requests.kind1",
 			"directed.client-gone-while-send-holds-tx", "hostile_inputs_framed", "hostile_rounds"},
 		Shards: func(string) int { return 8 },
 		Families: []core.Family{
@@ -981,7 +1045,13 @@ func Spec() *core.Spec {
 				}
 				return 24
 			}, Run: tlsCase, Timeout: 120 * time.Second},
-			{Name: "undecodable", Exhaustive: true, N: func(string) int { return 12 }, Run: undecodableCase, Timeout: 30 * time.Second},
+			{Name: "discover-panic", N: func(tier string) int {
+				if tier == core.Thorough {
+					return 200
+				}
+				return 4
+			}, Run: discoverPanicCase, Timeout: 60 * time.Second},
+			{Name: "undecodable", Exhaustive: true, N: func(string) int { return 15 }, Run: undecodableCase, Timeout: 30 * time.Second},
 			{Name: "directed", N: func(tier string) int {
 				if tier == core.Thorough {
 					return 400
